@@ -263,30 +263,26 @@ Proof.
 Qed.
 
 (* ---- the implementation's shape computation -------------------------------------------------------------------------- *)
-Lemma unsqueeze_right_impl_ok : forall s n, (s <> [] \/ n <> 0%nat) -> unsqueeze_right_impl s n = Some (unsqueeze_right s n).
-Proof. intros s n [H|H]; destruct s, n; try reflexivity; contradiction. Qed.
-
-Lemma seqparam_impl_ok : forall ss ps, (ss <> [] \/ ps <> []) -> (length ss <= length ps)%nat ->
-  unsqueeze_right_impl ss (length ps - length ss) = Some (seqparam_shape ss ps).
-Proof.
-  intros ss ps H Hl. unfold seqparam_shape. apply unsqueeze_right_impl_ok.
-  destruct H as [H|H]; [left; exact H|].
-  destruct ss; [right; destruct ps; [contradiction|cbn; lia]|left; discriminate].
-Qed.
-
 Lemma model_shape_impl_documented : forall T ts p0 pbc, length p0 = length pbc ->
   model_shape_impl (T :: ts) p0 pbc [] =
   match model_out_shape (T :: ts) pbc with Some r => ShapeOk r | None => BroadcastError end.
 Proof.
-  intros T ts p0 pbc H. unfold model_shape_impl, model_out_shape. rewrite H.
-  rewrite unsqueeze_right_impl_ok by (left; discriminate). cbn [unsq_all fold_left]. reflexivity.
+  intros T ts p0 pbc H. unfold model_shape_impl, model_out_shape. rewrite H. cbn [unsq_all fold_left]. reflexivity.
+Qed.
+
+(* one per-voxel sequence parameter: it is aligned with the LEADING parameter dims *)
+Lemma model_shape_impl_seqparam : forall tshape p0 pbc ss, length p0 = length pbc ->
+  model_shape_impl tshape p0 pbc [ss] =
+  match model_out_shape tshape pbc with
+  | Some r => match broadcast r (seqparam_shape ss pbc) with Some r' => ShapeOk r' | None => BroadcastError end
+  | None => BroadcastError
+  end.
+Proof.
+  intros tshape p0 pbc ss H. unfold model_shape_impl, model_out_shape, seqparam_shape. rewrite H. cbn [unsq_all fold_left].
+  destruct (broadcast (unsqueeze_right tshape (length pbc - (length tshape - 1))) pbc); reflexivity.
 Qed.
 
 Lemma shape_first_param_rank_counterexample :
   model_shape_impl [2]%nat [] [2; 2]%nat [] = ShapeOk [2; 2]%nat /\ model_out_shape [2]%nat [2; 2]%nat = Some [2; 2; 2]%nat
   /\ model_shape_impl [3]%nat [] [2; 2]%nat [] = BroadcastError /\ model_out_shape [3]%nat [2; 2]%nat = Some [3; 2; 2]%nat.
 Proof. repeat split; reflexivity. Qed.
-
-Lemma shape_scalar_seqparam_counterexample : forall T,
-  model_shape_impl [T] [] [] [[]] = ReshapeTypeError /\ model_out_shape [T] [] = Some [T].
-Proof. intros T. split; [reflexivity|apply model_out_shape_vector_time]. Qed.
